@@ -47,10 +47,24 @@ TEXT = {
          "that epoch bits never surface as failure (ptr_eq retry, sibling-checked), that every shared write is stamped, "
          "that take needs &mut and links/raw moves are private (witnesses). Linearizability of histories is not decided.",
          "4.2, 4.3, 4.6, 5/C08"),
+ "C11": ("Abstract interpretation of the MIR of Tagged::{with_tag,tag,with_high_tag,high_tag,as_raw,is_null,ptr_eq} in a bit-"
+         "provenance domain, for symbolic 64-bit words and every alignment 2^k (quick: 7 values of k, thorough: all 30): each "
+         "output bit is proven to be exactly the specified input bit / constant, compositions included; plus resolved-callee "
+         "check that the public accessors and formatters only go through these primitives. All obligations discharged.",
+         "3.3, 4.4, 5/C11"),
+ "C12": ("Layout from rustc-evaluated constants (disjoint, contiguous, covering); bit provenance of every accessor and with_*; "
+         "linear forms of add_*/sub_*; the modular window: for every residue of the current epoch, symbolic large epochs "
+         "(16K+c, K>=1) and concrete small ones, every true age 0..64: le(stamp, curr-K_thr) implies age >= K_thr, ages "
+         "K_thr..13 classified old, and the same for merged (max) stamps; the decision site uses exactly that predicate.",
+         "3.3, 4.4, 5/C12"),
  "C13": ("Decides the necessary ordering and gating conditions: pin publishes + full barrier + re-validates; try_advance "
          "refuses on a lagging pinned participant and on a stalled traversal, fences, advances by one; only bags >= 2 epochs "
          "old are taken; seal epoch is fresh; deferred functions run only from Bag::drop inside collect at the outermost "
          "unpin. The schedule-quantified property itself is not decided.", "4.5, 5/C13"),
+ "C14": ("Decides: Global.epoch has a single writer which stores successor(value read at entry) only after a complete, "
+         "non-stalled traversal; pin re-validates; re-pins store the pinned global epoch; Epoch arithmetic (successor = +2 "
+         "keeping the pin bit, pinned/unpinned touch bit 0 only, wrapping_sub ignores it) by abstract interpretation. "
+         "Monotonicity under racing advancers as a schedule property is not decided.", "4.4, 4.5, 5/C14"),
  "C15": ("Decides at-most-once by linearity (Deferred not Clone/Copy, call(self)), no deferred value is forgotten, full-bag "
          "re-queue, thread-exit hand-over, Bag::drop calls all, closure storage sound for every size/alignment, pops read and "
          "retire only on CAS success. 'Eventually' is not decided.", "4.5, 5/C15"),
@@ -72,6 +86,9 @@ NOTE = ("trusted base: rustc nightly MIR/const-eval/callee resolution, the mirfa
         "higher-order models (Result::map, array::from_fn, LocalKey::with, scopeguard); only the live cfg! arm (x86-64) and "
         "non-unwinding paths are judged; user pop_edges/Drop assumed to honour RcObject's contract")
 TECH = {
+ "C11": "abstract interpretation (bit-provenance domain) of MIR over an exhaustive partition of alignments",
+ "C12": "abstract interpretation (bit provenance, linear forms, K-affine forms) of MIR + evaluated constants",
+ "C14": "single-writer / value-provenance rules over MIR paths + abstract interpretation of Epoch arithmetic",
  "C02": "compile_fail witnesses + pinned-read dataflow + stamp dependence rules over MIR paths",
  "C05": "interprocedural must-precede (DESTRUCTED CAS gates destruct events) + compile_fail witnesses",
  "C06": "call-graph/handoff-kind rule over MIR paths (direct recursion vs deferral)",
